@@ -3,6 +3,7 @@ from __future__ import annotations
 
 import copy
 import dataclasses
+import typing
 import pickle
 import random
 
@@ -148,7 +149,20 @@ def run(ctx):
             return bytearray(chunk) if self.kind == "bytearray" else bytes(chunk)
 
     ndec = 0
-    for i, a, obj in insts[:: (1 if thorough else 2)]:
+    # large payloads too: a reader may assemble a long bytes field from pieces
+    big = []
+    for i, a, obj in insts:
+        c = cl.cls(i)
+        bf = [f for f in dataclasses.fields(c) if f.metadata.get("kafka_type") in ("bytes", "records")
+              and typing.get_origin(typing.get_type_hints(c)[f.name]) is not tuple]
+        if bf and len(big) < (200 if thorough else 24):
+            f = bf[len(big) % len(bf)]
+            n_ = [65537, 2**17 + 5, 2**20 + 3][len(big) % 3]
+            try:
+                big.append((i, a, dataclasses.replace(obj, **{f.name: bytes(n_)})))
+            except Exception:  # noqa: BLE001
+                pass
+    for i, a, obj in insts[:: (1 if thorough else 2)] + big:
         c = cl.cls(i)
         try:
             buf = io.BytesIO(); entity_writer(c)(buf, obj); data = buf.getvalue()
